@@ -31,6 +31,18 @@ EffSkipConv(w) == Effective(<<>>, SkipLines(w.pc), <<>>, "skip")
 EffSkipMeth(w, pl) == Effective(<<>>, SkipLines(w.pc), SkipLines(pl), "skip")
 AliasI(w, pl) == EffSkipMeth(w, pl) \/ EffSkipConv(w)
 AliasC(w) == EffSkipConv(w)
+\* kind "enumoff": `enum` (absent / yes / no) on the converter and on two declared methods Mk(SEk) TEk whose structs have a field of the
+\* enum types Col (Red = 1, Green = 2) -> Col2 (Green = 1, Red = 2).  With enum handling in effect for the method the field is an enum
+\* pair and is converted by a generated helper, which follows the converter's value; otherwise it is a cast of the number.
+\* Observed: Red (1) arrives as Red (2) -- mapped by name -- or as 1.
+WProgsE == {[kind |-> "enumoff", pc |-> a, p1 |-> b, p2 |-> c] : a \in Placements3, b \in Placements3, c \in Placements3}
+EnumLines(pl) == IF pl = "absent" THEN <<>> ELSE <<[key |-> "enum", val |-> pl]>>
+EffEnumConv(w) == Effective(<<>>, EnumLines(w.pc), <<>>, "enum")
+EffEnumMeth(w, pl) == Effective(<<>>, EnumLines(w.pc), EnumLines(pl), "enum")
+ByName(w, pl) == EffEnumMeth(w, pl) /\ EffEnumConv(w)
+\* named deviation DevLookupBeforeOwnSetting (known finding): M1 is built first; when it made goverter generate the helper for the enum
+\* pair, M2 finds that helper by lookup before its own `enum no` is consulted and converts by name as well
+DevHelperOfSibling(w) == ByName(w, w.p1) /\ ~EffEnumMeth(w, w.p2)
 LinesOf(pl) == IF pl = "absent" THEN <<>> ELSE <<[key |-> "wrapErrors", val |-> pl]>>
 EffConvW(w) == Effective(<<>>, LinesOf(w.pc), <<>>, "wrapErrors")
 EffMethW(w, pl) == Effective(<<>>, LinesOf(w.pc), LinesOf(pl), "wrapErrors")
